@@ -232,6 +232,11 @@ class Interp:
         if z3.is_false(scond):
             return False
         cond = z3.simplify(cond)
+        # literally assumed (or refuted) already on this path: no fork
+        if cond.get_id() in self.pc_ids:
+            return True
+        if z3.simplify(z3.Not(cond)).get_id() in self.pc_ids:
+            return False
         if self.pos < len(self.script):
             d = self.script[self.pos]
         else:
